@@ -42,6 +42,10 @@ P('C11','publish-after-build and one-snapshot rules, branch-fact rules on getCer
   "Decides structurally: index built before the atomic publish and nothing written after; one load of the set per handshake; fallback to the first certificate only without strict matching and (nil,nil) on a strict miss; every index lookup keyed by the lower-cased, dot-trimmed server name; every cycle of every watcher loop in package cert paced (incl. advancing Consul wait index); no certificate set sent from a loader's error edge; result order from the sorted name list; the updates goroutine applies every received set and is started before the config is returned. X.509 name matching beyond the exact/one-label wildcard index lookup depends on certificate contents and is not decided.",
   COMMON_NOTE)
 
+P('C17','branch-fact (gate) rules, must-pass-through/ordering rules on the CFG, typestate of the pooled gzip.Writer and of the decide-once writer field',
+  "Decides on every path of proxy/gzip: compression is chosen only under acceptsGzip and isCompressable (already-encoded responses refused, content-type expression consulted); on the compress edge Content-Length is removed and Content-Encoding set before the headers are sent, and only there; the status code is forwarded unchanged everywhere; the writer is decided once and never used undecided; the pooled gzip.Writer goes Get -> Reset(this response) -> use -> Close -> Put with the Close deferred in the handler and nothing after Put; Write forwards its argument unchanged; Vary is added on every path. That compress/gzip round-trips the bytes is library behaviour and not decided.",
+  COMMON_NOTE)
+
 checks=[]; na=[]
 for p in props:
     id=p['id']
